@@ -1100,7 +1100,9 @@ impl<'a> CompilerState<'a> {
                                         .unwrap()
                                         .as_str()
                                         .parse::<u32>()
-                                        .unwrap(),
+                                        .map_err(|_| {
+                                            self.syntax_error("Bank number out of range", start)
+                                        })?,
                                 )
                             }
                             Rule::superchip => memory = VariableMemory::Superchip,
@@ -1875,7 +1877,7 @@ impl<'a> CompilerState<'a> {
                         .unwrap()
                         .as_str()
                         .parse::<u32>()
-                        .unwrap();
+                        .map_err(|_| self.syntax_error("Bank number out of range", start))?;
                     if bank != 0 && inline {
                         return Err(
                             self.syntax_error("Bank spec and inlining are incompatible", start)
